@@ -266,18 +266,9 @@ def showRes {α} (f : α → String) : Res α → String
   | .panic => "panic"
   | .balloon => "balloon"
 
-/-- model of ReadRequest: header, then the body of the type selected by (key, version) — here the case's -/
+/-- model of ReadRequest (`Model.readRequest`, the function `frame_request_decode` is about) at the case's type -/
 def readRequest (c : Case) (stream : Bytes) : Res (Int × Bytes × Val) :=
-  (readInt 4 ⟨stream, 4⟩).bind fun size d =>
-    if size < 0 then (if cfg.bounded then .error else .panic)
-    else
-      let d : Dec := ⟨d.inp, size.toNat⟩
-      (readInt 2 d).bind fun _key d =>
-      (readInt 2 d).bind fun _ver d =>
-      (readInt 4 d).bind fun corr d =>
-      (decode cfg (.string false true) d).bind fun cid d =>
-      (readRequestBody cfg c.r.flexible c.r.ty d).bind fun v d =>
-        .ok (corr, (match cid with | .str s => s | _ => []), v) d
+  (KV.Codec.readRequest cfg c.r.flexible c.r.ty stream).bind fun x d => .ok (x.2.2.1, x.2.2.2.1, x.2.2.2.2) d
 
 /-- the reference resolved type: golden table when audited and certain, else the tree's -/
 def refTy (c : Case) : Ty × Bool :=
